@@ -77,7 +77,8 @@ class Responder:
             did = (data[1] << 8) | data[2]
             lst = self.scripts.get(did) or ["imm"]
             script = lst.pop(0) if len(lst) > 1 else lst[0]
-            ok = bytes([0x62, data[1], data[2]]) + tag_for(did) if data[0] == 0x22 else bytes([0x6E, data[1], data[2]]) if data[0] == 0x2E else bytes([0xFA, data[1], data[2]]) + tag_for(did)
+            odd_ = next((r_["odd"] for c_ in self.plan["callers"] for r_ in c_["reqs"] if r_.get("odd")), None)
+            ok = bytes([0x62, 0xF1, 0x86]) + bytes.fromhex(odd_) if (did == 0xF186 and data[0] == 0x22 and odd_) else bytes([0x62, data[1], data[2]]) + tag_for(did) if data[0] == 0x22 else bytes([0x6E, data[1], data[2]]) if data[0] == 0x2E else bytes([0xFA, data[1], data[2]]) + tag_for(did)
             pend = bytes([0x7F, data[0], 0x78])
             neg = bytes([0x7F, data[0], 0x31])
         else:
@@ -186,6 +187,12 @@ class C05(Check):
                 if r_.get("sid", 0x22) == 0x22 and rngv.random() < 0.12:
                     r_["sid"] = 0xBA
                     r_["raw"] = True
+        # one caller reads the active-session identifier and the ECU reports a value outside 0x00-0x7F (the session echoed with the
+        # suppress bit, or a two-byte record): whatever the client makes of it, the caller must release the client afterwards
+        if rngv.random() < 0.1:
+            c_ = rngv.choice(plan["callers"])
+            c_["reqs"].insert(rngv.randrange(len(c_["reqs"]) + 1), {"did": 0xF186, "scripts": ["imm"], "max_retry": 0, "think": 0.0, "raw": False, "sid": 0x22,
+                                                                 "odd": rngv.choice(["81", "0103", "ff"])})
         rng3 = rng_for(seed, "C05-refused", index)
         plan["rc_refused"] = None
         if plan["reconnect_at"] is not None and plan.get("stack") is None and rng3.random() < 0.3:
@@ -526,6 +533,9 @@ class C05(Check):
                     violation(res, "C05/attribution", "C05/attribution:response-pending-returned-as-the-reply",
                               f"caller {r['caller']} asked for {r['did']:#06x} and was handed the interim {r['pdu'].hex()} as its result")
                     break
+                if r["did"] == 0xF186:
+                    bump(res["probes"], "session_read_answered_with_a_value_outside_the_session_range")
+                    continue
                 if sid_ == 0xBA and r["pdu"][:1] == b"\xfa":
                     # a service gallia has no codec for: the positive response of that service is all the client can match on (C03),
                     # a late reply to an earlier request of the same service cannot be told from its own
